@@ -143,12 +143,12 @@ verus! {
 //@include-trusted env/dist_ops.vs
 //@include env/vsum_impls.vs
 //@include env/cache_spec.vs
-//@include env/cache_lemmas.vs
+//@include-proved env/cache_lemmas.vs
 pub mod cut {
 use super::*;
 use vstd::prelude::*;
-//@include env/remove_lemmas.vs
-//@include env/insert_lemmas.vs
+//@include-proved env/remove_lemmas.vs
+//@include-proved env/insert_lemmas.vs
 } // mod cut
 pub use self::cut::*;
 
@@ -531,8 +531,21 @@ impl Clone for TransitionCycle {
             }
             // C09: the usage table was brought up to date for the vehicle and left alone for everybody else
             lemma_usage_exact_step(self.depot_usage@, depot_usage@, &self.network, self.vehicles@, self.tours@, self.vehicles@, tours@, v); // @obl C09.add_path.depot_usage_exact
-            // CLOSURE: whatever schedule has the effects above satisfies the invariants again
-            lemma_apcl_closed_all(self, v, p); // @obl C10.add_path.result_satisfies_the_schedule_invariants_again
+        }
+        // CLOSURE: a ghost schedule built from the components the tail expression hands to Schedule::new has the effects above;
+        // every schedule with the same abstract state (the result) has them, too, and satisfies the invariants again
+        let ghost res = Schedule {
+            vehicles: self.vehicles, tours: tours, next_period_transitions: next_period_transitions, train_formations: train_formations,
+            depot_usage: depot_usage, dummy_tours: self.dummy_tours, vehicle_counter: self.vehicle_counter,
+            vehicle_ids_grouped_and_sorted: self.vehicle_ids_grouped_and_sorted, dummy_ids_sorted: self.dummy_ids_sorted,
+            unserved_passengers: unserved_passengers, maintenance_violation: maintenance_violation, costs: costs, network: self.network,
+        };
+        proof {
+            assert(self.ap_tour_after(v, p, &res)); // @obl C10.add_path.result_satisfies_the_schedule_invariants_again
+            assert(self.ap_rest_untouched(&res)); // @obl C10.add_path.result_satisfies_the_schedule_invariants_again
+            assert(self.transitions_follow(vt, &res)); // @obl C10.add_path.result_satisfies_the_schedule_invariants_again
+            assert(self.ap_effects(v, p, &res)); // @obl C10.add_path.result_satisfies_the_schedule_invariants_again
+            lemma_apcl_closed_like(self, v, p, &res); // @obl C10.add_path.result_satisfies_the_schedule_invariants_again
         }
 //@end
 
